@@ -448,6 +448,7 @@ class SpecCtx:
     def dict_values(self, dictval, p):
         """Declare the sort of the values of an agent-owned dictionary."""
         self.I.st.ghost.setdefault("dict_value_sorts", {})[str(z3.simplify(dictval))] = p
+        self.I.st.ghost["dict_value_sorts"]["r:" + str(z3.simplify(Val.r(dictval)))] = p
         return z3.BoolVal(True)
 
     def enum(self, clsname, member):
